@@ -76,6 +76,16 @@ def main(tier, replay, t0):
             continue
         if not camp.module_ok(c.id, x["id"]):
             lost += 1
+            bad = [d for d in probes.unexpected_rejection(camp, c.id, x["id"])
+                   if any(k in (d.get("rendered") or d.get("message") or "") for k in
+                          ("bindings.", "BindGroupEntry", "from_bindings", "BindGroupLayout",
+                           "set_bind_group", "LAYOUT_DESCRIPTOR", "BindGroups"))]
+            if bad:
+                viol.append(Violation("bind-group-code-does-not-compile", bad[0].get("code") or "?",
+                                      "the module's bind group code is rejected by rustc: %s" %
+                                      bad[0].get("message"),
+                                      {"case_id": c.id, "wgsl": c.wgsl, "options": x["opt"],
+                                       "rustc": [d.get("message") for d in bad][:3]}))
             continue
         base = {"case_id": c.id, "wgsl": c.wgsl, "options": x["opt"]}
         ps = camp.probe_state(c.id, x["id"], "probe_c04")
